@@ -321,7 +321,7 @@ pub fn exec(op: &str, t: &mut Toks, cx: &mut Ctx) -> Option<String> {
 pub fn gen_op<T: Sc>(rng: &mut Rng, r: &mut usize, c: &mut usize, bad_pct: usize) -> String {
     let bad = rng.chance(bad_pct);
     let k = rng.below(27);
-    let dim = |rng: &mut Rng| rng.below(9);
+    let dim = |rng: &mut Rng| { let d = DIM.with(|d| d.get()); if d <= 9 { rng.below(9) } else if rng.chance(50) { big(rng, d) } else { rng.below(d + 1) } };
     let sc = |rng: &mut Rng| T::gen(rng, 15, 0).wr();
     let idx = |rng: &mut Rng, n: usize, bad: bool| if bad || n == 0 { n + rng.below(3) } else { rng.below(n) };
     match k {
@@ -354,6 +354,18 @@ pub fn gen_op<T: Sc>(rng: &mut Rng, r: &mut usize, c: &mut usize, bad_pct: usize
                                   _ => if rng.chance(15) { *r = 0; *c = 0; if rng.chance(50) { "clear".into() } else { "empty".into() } }
                                        else { let b2 = bad && rng.chance(50); format!("swapelem {} {} {} {}", idx(rng, *r, bad), idx(rng, *c, false), idx(rng, *r, false), idx(rng, *c, b2)) } },
     }
+}
+
+thread_local! { static DIM: std::cell::Cell<usize> = std::cell::Cell::new(9); }
+/// a history on LARGER shapes (dimensions up to `cap`, half of them from the list `BIG`)
+pub fn gen_hist_big<T: Sc>(rng: &mut Rng, nops: usize, bad_pct: usize, cap: usize) -> String {
+    DIM.with(|d| d.set(cap));
+    let (mut r, mut c) = (big(rng, cap), if rng.chance(50) { big(rng, cap) } else { 1 + rng.below(cap) });
+    if rng.chance(30) { c = r; }
+    let mut s = format!("mat_hist {} {} {}", T::TAG, gen_mat_str::<T>(rng, r, c, 20, 0), nops);
+    for _ in 0..nops { s.push(' '); s.push_str(&gen_op::<T>(rng, &mut r, &mut c, bad_pct)); }
+    DIM.with(|d| d.set(9));
+    s
 }
 
 pub fn gen_hist<T: Sc>(rng: &mut Rng, nops: usize, bad_pct: usize) -> String {
@@ -402,4 +414,19 @@ pub fn gen(rng: &mut Rng, tier: Tier, out: &mut Vec<String>) {
         let p = *rng.pick(&[1.0f64, 2.0, 3.0, 1.5, 8.0]);
         out.push(format!("mat_norms {} {}", gen_mat_str::<f64>(rng, r, c, 15, 0), p.wr()));
     } } }
+
+    // (5) LARGER SHAPES (up to 40 x 40): transposes of every square order in BIG, products, row / column edits and the
+    // norm view; f64 on dyadic data (bit-exact against the reference), a few short exact histories
+    for &n in BIG.iter().filter(|n| **n <= 40) {
+        out.push(format!("mat_hist f {} 4 trip tr swaprows {} {} mulv {}", gen_mat_str::<f64>(rng, n, n, 15, 0), rng.below(n), n - 1, gen_vec_str::<f64>(rng, n, 10, 0)));
+        let c = 1 + rng.below(n + 3);
+        out.push(format!("mat_hist f {} 5 tr trip mul {} norms {} getcol {}", gen_mat_str::<f64>(rng, n, c, 15, 0), gen_mat_str::<f64>(rng, c, 1 + n / 2, 15, 0), (2.0f64).wr(), n / 2));
+        if n <= 25 { out.push(format!("mat_hist q {} 3 trip mul {} tr", gen_mat_str::<Q>(rng, n, n, 40, 0), gen_mat_str::<Q>(rng, n, 2, 40, 0))); }
+    }
+    for i in 0..(if tier == Tier::Quick { 12 } else { 300 }) {
+        let nops = 1 + rng.below(8);
+        out.push(gen_hist_big::<f64>(rng, nops, 5, 40));
+        if i % 3 == 0 { let k = 1 + rng.below(3); out.push(gen_hist_big::<Q>(rng, k, 5, 24)); }
+        if i % 4 == 0 { let k = 1 + rng.below(4); out.push(gen_hist_big::<ohsl::Cmplx>(rng, k, 5, 24)); }
+    }
 }
